@@ -16,6 +16,7 @@ OBVIOUS_REDIRECTS_RE = re.compile(
     % r"(?:redirect(?:_to)?|target|redir|next|link|orig|goto|url|[luq])",
     re.I,
 )
+AUTHORITY_RE = re.compile(r"^(?:[a-zA-Z][a-zA-Z0-9+.-]*:)?//[^/?#]*")
 REDIRECTION_DOMAINS_RE = re.compile(
     r"(?:\.ampproject\.org/[cv]/(?:s/)?|bc\.marfeelcache\.com/amp/|bc\.marfeel\.com/)",
     re.I,
@@ -47,7 +48,13 @@ def infer_redirection(url, recursive=True):
             target = "https://" + redirection_split[1]
 
     else:
-        obvious_redirect_match = re.search(OBVIOUS_REDIRECTS_RE, url)
+        # NOTE: a redirection hint sitting in the authority ("http://a.com&url=/x")
+        # is not a query parameter, and joining a relative target to such an
+        # url would make it grow forever
+        authority_match = AUTHORITY_RE.match(url)
+        offset = authority_match.end() if authority_match is not None else 0
+
+        obvious_redirect_match = OBVIOUS_REDIRECTS_RE.search(url, offset)
 
         if obvious_redirect_match is not None:
             if obvious_redirect_match.group(1) == "q":
